@@ -42,7 +42,7 @@ def newcounter_calls(fn):
 def class_setup(m, modname):
     """Interpret <package>.ProcessOptions({}, document) on a recording heap: the counters it declares and the
     attributes it patches on macro classes looked up through the context."""
-    fn = m.module(modname).functions.get('ProcessOptions')
+    fn = m.func_or_none(modname, 'ProcessOptions')
     need(fn is not None, '%s.ProcessOptions not found' % modname)
 
     class H(A.Hooks):
@@ -427,7 +427,7 @@ def r85(chk, m):
                  'numToRoman(n) is the standard roman numeral (quick tier: 1..120, every value within 2 of a multiple of 50, '
                  'x9/x4 patterns and the longest numerals; thorough tier: every value 1..4999); Alph/alph index the alphabet at '
                  'value-1; roman/alph are the lower-case forms; arabic is str(value)', 14)
-    fn = m.module('plasTeX').functions.get('numToRoman')
+    fn = m.func_or_none('plasTeX', 'numToRoman')
     need(fn is not None, 'numToRoman not found')
     chk.analysed(fn)
     if chk.tier == 'thorough':
